@@ -741,7 +741,7 @@ func cmdReplay(args []string) int {
 		pkg, _ := info["pkg"].(string)
 		run, _ := info["run"].(string)
 		bound, _ := info["bound"].(string)
-		ok, out, _, _ := runBounded(pkg, filepath.Base(f), run, bound, 0)
+		ok, out, _, _ := runBounded(pkg, filepath.Base(f), run, bound, 0, false)
 		fmt.Println(firstLines(out, 60))
 		if !ok {
 			fmt.Println("replay: the violation reproduces")
